@@ -117,12 +117,11 @@ func gAnnotations(t *rapid.T, chk, class string) (map[string]string, string) {
 	return m, kind
 }
 
-func gBackend(t *rapid.T, chk, stable string, allowResource bool, hist *[]string) netv1.IngressBackend {
+// gBackend draws a backend; inPath tells whether it belongs to a rule path (buildCanaryIngress
+// only walks rule paths, the default backend is never looked at).
+func gBackend(t *rapid.T, chk, stable string, inPath bool, hist *[]string) netv1.IngressBackend {
 	k := pick(t, "backend-kind", "stable", "stable", "stable", "other", "other", "resource")
-	if k == "resource" && !allowResource {
-		k = "other"
-	}
-	if k == "resource" && knownOpen[sigResourceBackend] {
+	if k == "resource" && inPath && knownOpen[sigResourceBackend] {
 		vlib.Excluded(chk, sigResourceBackend)
 		k = "other"
 	}
@@ -169,7 +168,7 @@ func gIngress(t *rapid.T, chk, class, stable string) (*netv1.Ingress, []string) 
 	var bk []string
 	nrules := rapid.IntRange(0, 4).Draw(t, "rules")
 	if nrules == 0 || chance(t, 25, "default-backend") {
-		b := gBackend(t, chk, stable, true, &bk)
+		b := gBackend(t, chk, stable, false, &bk)
 		ing.Spec.DefaultBackend = &b
 		cls = append(cls, "default-backend="+bk[0])
 		bk = nil
